@@ -10,6 +10,7 @@ CLAIMED = {
    note="Trusted: Lean kernel; translator harness/translate/cells.py; tensor products limited to <=3 named factors, tdim<=3, and to the dimensions the code defines (others raise NotImplementedError).",
    design="5 C26"),
 }
+NA_MAP = {}
 NA_REASON = "not yet covered by a compiled theorem + tie in this revision (work in progress, see DESIGN.md section 7); not claimed at a weaker technique"
 checks, na = [], []
 for p in props:
@@ -27,7 +28,7 @@ for p in props:
           "level_note": c["note"],
           "technique": c["technique"]})
     else:
-        na.append({"property_id": pid, "reason": NA.get(pid, NA_REASON) if (NA := globals().get("NA_MAP", {})) or True else NA_REASON})
+        na.append({"property_id": pid, "reason": NA_MAP.get(pid, NA_REASON)})
 m = {
  "version": 1,
  "setup_cmd": "cd lean && lake build",
